@@ -139,7 +139,7 @@ pub fn run(report: &mut Report) {
     report.enumerate("exhaustive", true, lists, check);
     report.prop(
         "random",
-        tier.pick(60_000, 2_000_000),
+        tier.pick(600_000, 6_000_000),
         || {
             (2u8..=8, 0usize..=10)
                 .prop_flat_map(|(alpha, k)| {
